@@ -260,111 +260,118 @@ def _roles_of_concat(expr, df, at, roles):
 
 
 def _check_argorder(repo, res, cls):
-    want = ["states", "time", "params"]
+    """symbols and values share the order (states, t, parameters): set_sp, _getEvalParam, the value list of the parameters setter and the
+    compile back-ends are interpreted on an abstract model; only the resulting lists / recorded calls are compared"""
+    from ..core.absint import Abs, Obj, Tok, Raised
+    from ..core.algebra import Undecided
+    from ..core.numarr import NumArr
+    from . import C09
+    states, params = ["S", "I", "R"], ["beta", "gamma"]
+
+    def model():
+        me = Obj("Model")
+        me.attrs["_stateList"] = [C09.var(n) for n in states]
+        me.attrs["_paramList"] = [C09.var(n) for n in params]
+        me.attrs["_stateDict"] = {n: Tok(n, "sym") for n in states}
+        me.attrs["_paramDict"] = {n: Tok(n, "sym") for n in params}
+        me.attrs["_t"] = Tok("t", "sym")
+        return me
+    # ---- set_sp
     sp = repo.resolve_method(cls, "set_sp")
-    cfg, df = cfg_of(sp), dataflow_of(sp)
-    roles = {"self._stateList": "states", "self._t": "time", "self._paramList": "params"}
-    env = {}
-    ok, got = False, None
-    for n in cfg.stmt_nodes():
-        st = n.ast
-        if n.kind == "stmt" and isinstance(st, ast.Assign) and len(st.targets) == 1 and is_self_attr(st.targets[0]):
-            r = _roles_of_concat(st.value, df, n, dict(roles, **{"self." + k: v for k, v in env.items()}))
-            if r is not None:
-                # flatten nested role lists stored earlier
-                flat = []
-                for x in r:
-                    flat += x if isinstance(x, list) else [x]
-                env[st.targets[0].attr] = flat
-    got = env.get("_sp")
-    res.check(got == want, "R-ARGORDER", sp, "symbols", "symbol list self._sp = states + [t] + parameters",
-              "self._sp is ordered %s, expected %s" % (got, want), node=sp.node)
-    # the in-place conversion loop writes back to the same position
-    for n in cfg.stmt_nodes():
-        st = n.ast
-        if n.kind == "stmt" and isinstance(st, ast.Assign) and isinstance(st.targets[0], ast.Subscript) and is_self_attr(st.targets[0].value, "_sp"):
-            idx = st.targets[0].slice
-            di = df.single_def(n, idx.id) if isinstance(idx, ast.Name) else None
-            v = st.value
-            item_ok = isinstance(v, ast.Subscript) and isinstance(v.slice, ast.Attribute) and isinstance(v.slice.value, ast.Name)
-            dj = df.single_def(n, v.slice.value.id) if item_ok else None
-            paired = di is not None and dj is not None and di.kind == "for" and dj.kind == "for" and di.node.id == dj.node.id \
-                and di.slot == (0,) and dj.slot == (1,)
-            res.check(paired, "R-ARGORDER", sp, "convert-in-place@%s" % norm(v)[:30], "symbol i replaced by the sympy symbol of item i",
-                      "self._sp[%s] is overwritten from a different item (%s)" % (norm(idx), norm(v)), node=st)
+    if sp is None:
+        raise AnalysisError("set_sp vanished")
+    me = model()
+    try:
+        ab = Abs({}, dict(C09.TYPES), {}, me, {}, eq=C09.eq_hook)
+        ab.class_methods = set(repo.all_methods(cls))
+        kind, out = ab.run_function(sp.node, {})
+        got = me.attrs.get("_sp")
+        want = [Tok(n, "sym") for n in states] + [Tok("t", "sym")] + [Tok(n, "sym") for n in params]
+        res.check(kind == "return" and isinstance(got, list) and got == want, "R-ARGORDER", sp, "symbols",
+                  "the compile-time symbol list is (state symbols, t, parameter symbols) in declaration order",
+                  "for states %s and parameters %s set_sp builds %s, expected the sympy symbols %s" % (states, params, got if kind == "return" else "raises %s" % out, want), node=sp.node)
+    except Undecided as e:
+        res.undecided("R-ARGORDER", sp, "symbols", "outside the modelled subset: %s" % e)
+    # ---- _getEvalParam
     ge = repo.resolve_method(cls, "_getEvalParam")
-    cfg, df = cfg_of(ge), dataflow_of(ge)
-    sp_, tp_ = ge.params[1], ge.params[2]
-    roles = {sp_: "states", tp_: "time", "self._paramValue": "params", "list(%s)" % sp_: "states"}
-    rets = C.returns_of(ge)
+    if ge is None:
+        raise AnalysisError("_getEvalParam vanished")
     n_forms = 0
-    for r in rets:
-        v = r.ast.value
-        # enumerate the reaching definitions of the local list per branch
-        if isinstance(v, ast.BinOp) and isinstance(v.left, ast.Name):
-            for d in df.strong_defs(r, v.left.id):
-                n_forms += 1
-                sub = ast.BinOp(left=d.value, op=ast.Add(), right=v.right) if d.value is not None else v
-                got = _roles_of_concat(sub, df, d.node, roles)
-                res.check(got == want, "R-ARGORDER", ge, "values@%s" % norm(d.stmt)[:40],
-                          "values ordered states + [time] + parameter values",
-                          "evaluation arguments are ordered %s but the compiled function expects %s" % (got, want), node=d.stmt)
-        else:
-            n_forms += 1
-            got = _roles_of_concat(v, df, r, roles)
-            res.check(got == want, "R-ARGORDER", ge, "values@%s" % norm(v)[:40], "values ordered states + [time] + parameter values",
-                      "evaluation arguments are ordered %s but the compiled function expects %s" % (got, want), node=r.ast)
-    res.floor("_getEvalParam value forms", n_forms, 3)
-    # _paramValue filled by name look-up
+    bad = []
+    for label, st in (("list", [1.5, 2.5, 3.5]), ("tuple", (1.5, 2.5, 3.5)), ("array", NumArr([1.5, 2.5, 3.5])), ("scalar", 7.5)):
+        me = model()
+        me.attrs.update(_parameters={"beta": 0.25, "gamma": 0.125}, _paramValue=[0.25, 0.125])
+        try:
+            ab = Abs({}, dict(C09.TYPES), {}, me, dict(C09.GETTERS), eq=C09.eq_hook)
+            ab.class_methods = set(repo.all_methods(cls))
+            kind, out = ab.run_function(ge.node, dict(zip(ge.params[1:], [st.copy() if isinstance(st, NumArr) else st, 9.0, None])))
+        except Undecided as e:
+            res.undecided("R-ARGORDER", ge, "values", "outside the modelled subset: %s" % e)
+            bad = None
+            break
+        n_forms += 1
+        want = ([7.5] if label == "scalar" else [1.5, 2.5, 3.5]) + [9.0, 0.25, 0.125]
+        got = out.tolist() if isinstance(out, NumArr) else (list(out) if isinstance(out, (list, tuple)) else out)
+        if kind != "return" or got != want:
+            bad.append("state given as %s: evaluation arguments %s, the compiled function expects (states, t, parameter values) = %s" % (label, got if kind == "return" else "raise %s" % out, want))
+    if bad is not None:
+        res.check(not bad, "R-ARGORDER", ge, "values", "evaluation arguments are (state values, time, parameter values) for list / tuple / array / scalar states",
+                  "; ".join(bad[:2]), node=ge.node)
+        res.floor("_getEvalParam value forms", n_forms, 4)
+    # ---- values placed by name (decided on all input forms by C09's enumeration; here: the one fact C01 needs)
     ps = repo.resolve_setter(cls, "parameters")
-    cfg, df = cfg_of(ps), dataflow_of(ps)
-    fills = [n for n in cfg.stmt_nodes() if n.kind == "stmt" and isinstance(n.ast, ast.Assign)
-             and isinstance(n.ast.targets[0], ast.Subscript) and is_self_attr(n.ast.targets[0].value, "_paramValue")]
-    ok = bool(fills)
-    why = "no store into self._paramValue[...]"
-    for n in fills:
-        idx = df.expand(n.ast.targets[0].slice, n)
-        val = n.ast.value
-        kd = vd = None
-        if isinstance(idx, ast.Call) and is_self_attr(idx.func, "get_param_index") and idx.args and isinstance(idx.args[0], ast.Name):
-            kd = df.single_def(n, idx.args[0].id)
-        if isinstance(val, ast.Name):
-            vd = df.single_def(n, val.id)
-        good = kd is not None and vd is not None and kd.kind == "for" and vd.kind == "for" and kd.node.id == vd.node.id \
-            and kd.slot == (0,) and vd.slot == (1,) and norm(kd.value) == "self._parameters.items()"
-        if not good:
-            ok = False
-            why = "self._paramValue[%s] = %s does not place each value at the index looked up from its own key" % (norm(n.ast.targets[0].slice), norm(val))
-        else:
-            why = "value stored at get_param_index(key) of its own key"
-    res.check(ok, "R-ARGORDER", ps, "values-by-name", why, why, node=fills[0].ast if fills else ps.node)
-    allocs = [d for d in df.defs if False]
-    alloc = [n for n in cfg.stmt_nodes() if n.kind == "stmt" and isinstance(n.ast, ast.Assign) and any(is_self_attr(t, "_paramValue") for t in n.ast.targets)]
-    ok = bool(alloc) and all("len(self._paramList)" in norm(a.ast.value) or "self.num_param" in norm(a.ast.value) for a in alloc) \
-        and all(cfg.dominates(a, f_) for a in alloc for f_ in fills)
-    res.check(ok, "R-ARGORDER", ps, "values-length", "value list sized by the parameter list before being filled",
-              "self._paramValue is not re-allocated to the length of the parameter list before being filled", node=alloc[0].ast if alloc else ps.node)
-    # compile back-ends: every autowrap / lambdify call passes (expr=inputExpr, args=inputSymb)
+    me = C09.model(C09.NAMES)
+    try:
+        kind, out = C09.run_setter(ps, me, {"c": 3.75, "a": 1.25, "b": 2.5}, C09.NAMES)
+        res.check(kind == "return" and list(me.attrs.get("_paramValue") or []) == [1.25, 2.5, 3.75], "R-ARGORDER", ps, "values-by-name",
+                  "the value list read by the evaluators holds each value at the index of its own parameter",
+                  "a dict given in the order c, a, b yields the value list %s" % (me.attrs.get("_paramValue"),), node=ps.node)
+    except Undecided as e:
+        res.undecided("R-ARGORDER", ps, "values-by-name", "outside the modelled subset: %s" % e)
+    # ---- compile back-ends: whichever back-end finally succeeds was given (expr = the expression, args = the symbols)
     ce = repo.func(M.M_UTILS, "compileCode.compileExpr")
-    n_be = 0
-    for n, c, callee in C.calls(ce):
-        if callee in ("autowrap", "lambdify"):
+    n_be, bad = 0, []
+    EXPR, SYMB = Tok("the-expression"), Tok("the-symbols")
+    for backend in (None, "f2py", "lambda", "cython", "Cython", "np"):
+        for fail_first in (0, 1, 2, 3):
+            calls = []
+
+            def autowrap(expr=None, language=None, backend="f2py", tempdir=None, args=None, flags=None, verbose=False, helpers=None, **k):
+                calls.append(("autowrap", expr, args))
+                if len(calls) <= fail_first:
+                    raise Raised("CodeWrapError")
+                return ("compiled", len(calls))
+
+            def lambdify(args=None, expr=None, modules=None, **k):
+                calls.append(("lambdify", expr, args))
+                if len(calls) <= fail_first:
+                    raise Raised("LambdifyError")
+                return ("compiled", len(calls))
+            me = Obj("compileCode", _backend="cython")
+            try:
+                ab = Abs({}, {}, {"autowrap": autowrap, "lambdify": lambdify, "print": lambda *a, **k: None}, me, {})
+                ab.class_methods = set()
+                kind, out = ab.run_function(ce.node, {ce.params[1]: SYMB, ce.params[2]: EXPR, "backend": backend, "compileType": True})
+            except Undecided as e:
+                res.undecided("R-ARGORDER", ce, "backends", "outside the modelled subset: %s" % e)
+                bad = None
+                break
+            if kind != "return":
+                continue        # every back-end failed in this scenario: an error is the right outcome
             n_be += 1
-            b = C.bind_args(c, ["expr", "args"] if callee == "autowrap" else ["args", "expr"])
-            ok = norm(b.get("expr")) == ce.params[2] and norm(b.get("args")) == ce.params[1]
-            res.check(ok, "R-ARGORDER", ce, "backend@%d" % c.lineno if False else "backend#%d(%s)" % (n_be, callee),
-                      "%s(expr=inputExpr, args=inputSymb)" % callee,
-                      "%s is called with expr=%s args=%s" % (callee, norm(b.get("expr")), norm(b.get("args"))), node=c)
-    res.floor("compile back-end call sites", n_be, 7)
-    # compileExprAndFormat compiles the expression/symbols it was given
-    cef = repo.func(M.M_UTILS, "compileCode.compileExprAndFormat")
-    cs = C.calls_to(cef, "self.compileExpr")
-    ok = len(cs) == 1
-    if ok:
-        b = C.bind_args(cs[0][1], ce.params[1:])
-        ok = norm(b.get("inputSymb")) == cef.params[1] and norm(b.get("inputExpr")) == cef.params[2]
-    res.check(ok, "R-ARGORDER", cef, "compile-what-was-given", "compileExpr(inputSymb, inputExpr, ...)",
-              "compileExprAndFormat does not hand its own (inputSymb, inputExpr) to compileExpr", node=cef.node)
+            fn = out[0] if isinstance(out, tuple) else out
+            if not (isinstance(fn, tuple) and fn and fn[0] == "compiled"):
+                bad.append("backend=%r with the first %d attempt(s) failing: returns %r" % (backend, fail_first, fn))
+                continue
+            used = calls[fn[1] - 1]
+            if used[1] != EXPR or used[2] != SYMB:
+                bad.append("backend=%r with the first %d attempt(s) failing: %s was given expr=%r args=%r" % (backend, fail_first, used[0], used[1], used[2]))
+        if bad is None:
+            break
+    if bad is not None:
+        res.check(not bad, "R-ARGORDER", ce, "backends", "whichever back-end compiles (%d scenarios with 0..3 failing attempts), it receives the expression as expr and the symbol list as args" % n_be,
+                  "; ".join(bad[:2]), node=ce.node)
+        res.floor("compile back-end scenarios", n_be, 12)
 
 
 def _check_namespace(repo, res):
